@@ -541,7 +541,7 @@ func (x *Exec) builtin(bc *blockCtx, in ssa.Instruction, f *ssa.Builtin, cc *ssa
 			acc = &Val{Typ: acc.Typ, T: x.b.Ite(c, x.asTerm(o), x.asTerm(acc))}
 		}
 		return acc
-	case "print", "println":
+	case "print", "println", "close":
 		return nil
 	case "ssa:wrapnilchk":
 		return args[0]
